@@ -1,6 +1,6 @@
 (* C09: case vocabulary, executable model runner and property predicate.
    The model follows the code WITH the repairs F01, F02, F03, F06, F12, F17. *)
-From OIDC Require Export Lib C09_Json C09_Codec C09_Verifier C09_Handler C09_Client.
+From OIDC Require Export Lib C09_Json C09_Codec C09_Verifier C09_Handler C09_Client C09_Crypto.
 
 (* per-case oracle tables, filled by the harness with the real functions' answers
    for every string of the document *)
@@ -51,6 +51,8 @@ Inductive input :=
 | IRoute (e : entry) (class : nat) (req : string)    (* arbitrary route x method x header x body; class = generator family (>0);
                                                         req = digest of the request bytes (identifies the case; never inspected) *)
 | IClient (h : helper) (a : answer) (expect : string) (t : tables)
+| IDevice (dev tok : answer) (t : tables)             (* device authorization answer, then polling the token endpoint with its interval *)
+| IOpaque (o : otoken)                               (* crypto.DecryptAES of a string of that make-up *)
 | IUserCode (charset_len amount dash : Z).           (* op.NewUserCode *)
 
 Inductive observed :=
@@ -70,6 +72,8 @@ Definition model (i : input) : observed :=
   | ICode x => OHandler (chandler true x)
   | IRoute _ _ _ => ORoute RSingle
   | IClient h a e t => OClient (call (time_of t) (lang_of t) true h a e)
+  | IDevice dev tok t => OClient (device_flow (time_of t) (lang_of t) true dev tok)
+  | IOpaque o => ODecode (cls_of (decrypt_aes true o))
   | IUserCode n amount dash =>
       OUserCode (if (n <=? 0)%Z || (amount <=? 0)%Z then KErr else KOk)
   end.
@@ -91,6 +95,8 @@ Definition spec (i : input) (o : observed) : bool :=
       | CRetOk => negb (a_ok a) || well_formed (a_body a)
       | CRetErr => true
       end
+  | IDevice _ _ _, OClient c => match c with CPanic => false | _ => true end
+  | IOpaque _, ODecode c => match c with KPanic => false | _ => true end
   | IUserCode _ _ _, OUserCode c => match c with KPanic => false | _ => true end
   | _, _ => false
   end.
@@ -160,6 +166,8 @@ Definition path (i : input) (o : observed) : nat :=
       if negb (a_ok a) then 11
       else match c with CRetOk => 12 | CRetErr => 13 | CPanic => 14 end
   | IUserCode _ _ _, _ => 15
+  | IDevice _ _ _, OClient c => match c with CRetOk => 43 | CRetErr => 44 | CPanic => 45 end
+  | IOpaque o, ODecode c => match c with KOk => 46 | KErr => if ot_other o then 47 else 48 | KPanic => 49 end
   | _, _ => 0
   end.
 
